@@ -82,6 +82,9 @@ def gen_case(seed, tier):
             if victim['op'] == 'snapshot':
                 victim['files'] = dict(victim['files'])
                 victim['files'][paths[0]] = 0
+    if pre['victim']['op'] == 'snapshot' and substream(seed, 'c03-rate').random() < 0.3:
+        # the victim runs under a bandwidth limit (the limiter sits between the chunks and the backend's streams)
+        pre['victim']['rate_limit'] = substream(seed, 'c03-rate2').choice([2000, 20000, 10**6])
     pre['step_budget'] = 300_000 if tier == 'quick' else 3_000_000
     return pre
 
@@ -169,7 +172,9 @@ def run_victim(H, victim, profile):
     if victim['op'] == 'snapshot':
         d, files = H.materialize(victim)
         H.set_clock(victim)
-        r = W.snapshot(H.clients[u], [d], H.opts, profile=profile, live=live)
+        r = W.snapshot(H.clients[u], [d], H.opts, profile=profile, live=live, rate_limit=victim.get('rate_limit'))
+        if victim.get('rate_limit'):
+            H.probe('victim_rate_limited')
         return r, {'files': files}
     if victim['op'] == 'delete':
         mine = H.live(u)
